@@ -90,7 +90,10 @@ impl State {
             // If the counter is already idle, and no updates were made since the last time the counter was flushed,
             // then we've already emitted our zero value and no longer need to emit updates until the counter is active
             // again.
-            if points_flushed == 0 {
+            //
+            // An increment bumps the counter value and its update count in two separate steps, so a flush that lands
+            // in between can observe a non-zero delta with an update count of zero: such a delta must still be sent.
+            if points_flushed == 0 && value == 0 {
                 if flush_state.is_counter_idle(&key) {
                     continue;
                 }
